@@ -1,0 +1,5 @@
+//go:build !verif
+
+package ratelimiting
+
+func verifPoint(string, ...any) {}
